@@ -102,12 +102,28 @@ def make_app(script, counters):
         elif cl == "smaller":
             headers.append(("Content-Length", str(max(total - 1, 0))))
         hl = list(headers)
+        st2_ = script.get("sr_twice") or {}
+        if "first_cl" in st2_:
+            # the first call declares another length than the response finally sent (the application changes its mind)
+            hl = [h for h in hl if h[0].lower() != "content-length"] + [("Content-Length", str(st2_["first_cl"]))]
+        if script.get("mutate_inner"):
+            hl = [list(h) for h in hl]          # header items as lists (not tuples), changed in place after the call
         if f and f[0] == "start_response":
             raise exc("app failure before start_response")
         status = script.get("status", "200 OK")
-        write = start_response(status, hl)
+        if script.get("swallow"):
+            # an application that catches the refusal of its strings and carries on without calling again
+            try:
+                write = start_response(status, hl)
+            except (ValueError, AssertionError, TypeError):
+                write = None
+        else:
+            write = start_response(status, hl)
         if script.get("mutate_after"):
             hl.append(tuple(script["mutate_after"]))
+        if script.get("mutate_inner"):
+            i_, j_, v_ = script["mutate_inner"]
+            hl[i_][j_] = v_
         if script.get("sr_twice"):
             # the application changes its mind before any output: allowed with exc_info
             try:
@@ -115,7 +131,10 @@ def make_app(script, counters):
             except AppFail:
                 import sys
                 st2 = script["sr_twice"]
-                write = start_response(st2.get("status", "500 Oops"), [tuple(h) for h in st2.get("headers", [["X-Second", "v2"]])], sys.exc_info())
+                h2 = [tuple(h) for h in st2.get("headers", [["X-Second", "v2"]])]
+                if "first_cl" in st2 and cl == "exact":
+                    h2.append(("Content-Length", str(total)))
+                write = start_response(st2.get("status", "500 Oops"), h2, sys.exc_info())
         kind = script.get("kind", "list")
         if script.get("use_write"):
             nw = script.get("write_first")
